@@ -25,9 +25,10 @@ func sanitizeSelectionSet(ctx *PlanningContext, selectionSet ast.SelectionSet, i
 			result = addSelectionSetToSanitizedResult(result, s)
 		case *ast.FragmentSpread:
 			inlineFragment := &ast.InlineFragment{
-				TypeCondition:    s.Definition.TypeCondition,
-				Directives:       s.Directives,
-				SelectionSet:     s.Definition.SelectionSet,
+				TypeCondition: s.Definition.TypeCondition,
+				Directives:    s.Directives,
+				// sanitizing changes fields in place, the definition is shared by all spreads of the fragment
+				SelectionSet:     copySelectionSet(s.Definition.SelectionSet),
 				ObjectDefinition: s.ObjectDefinition,
 				Position:         s.Position,
 			}
@@ -208,4 +209,30 @@ func isContainsUnaliasedField(selectionSet ast.SelectionSet, fieldname string) b
 	}
 
 	return false
+}
+
+// copySelectionSet copies selection set so that changing it's fields and fragments doesn't affect the source
+func copySelectionSet(selectionSet ast.SelectionSet) ast.SelectionSet {
+	if selectionSet == nil {
+		return nil
+	}
+	result := make(ast.SelectionSet, 0, len(selectionSet))
+	for _, selection := range selectionSet {
+		switch sel := selection.(type) {
+		case *ast.Field:
+			cpy := *sel
+			cpy.SelectionSet = copySelectionSet(sel.SelectionSet)
+			result = append(result, &cpy)
+		case *ast.InlineFragment:
+			cpy := *sel
+			cpy.SelectionSet = copySelectionSet(sel.SelectionSet)
+			result = append(result, &cpy)
+		case *ast.FragmentSpread:
+			cpy := *sel
+			result = append(result, &cpy)
+		default:
+			result = append(result, selection)
+		}
+	}
+	return result
 }
